@@ -125,6 +125,12 @@ func c09(c *evid.Ctx) {
 			c.Inconclusive(err.Error())
 			return
 		}
+		if t%4 == 1 {
+			// A transport whose addresses are not *net.UDPAddr (the library then only has their
+			// String form to go by): nothing about the replies may change.
+			d.N.Conn.SetWrapAddrs(true)
+			c.Count("tables built over a transport with its own net.Addr type", 1)
+		}
 		buckets := buildTable(d, r)
 		if d.Err != nil {
 			c.Inconclusive(d.Err.Error())
